@@ -202,7 +202,13 @@ class Optimizer(Identifiable, Runnable):
 
     def load_state_dict(self, state_dict: dict[str, Any]) -> None:
         self._epoch = state_dict["iteration"]
-        self.optimizer.load_state_dict(state_dict["optimizer"])
+        optimizer_state = dict(state_dict["optimizer"])
+        # the state of torch optimizers is keyed by integers but JSON keys are strings
+        optimizer_state["state"] = {
+            int(key) if isinstance(key, str) and key.isdigit() else key: value
+            for key, value in optimizer_state["state"].items()
+        }
+        self.optimizer.load_state_dict(optimizer_state)
         if self.scheduler is not None:
             self.scheduler.load_state_dict(state_dict["scheduler"])
 
